@@ -1,5 +1,5 @@
 (* Entry points evaluated by the correspondence harness (props/_proc_common.py, props/C01.py, props/C02.py). *)
-From PV Require Export Proc.Spec.
+From PV Require Export Proc.Spec Proc.Live.
 
 Definition jv_sysc (c : sysc) : jv :=
   match c with
@@ -59,3 +59,23 @@ Fixpoint wfp_from (w : world) (h : list ev) : bool :=
   match h with [] => true | e :: r => wfp_ev w e && wfp_from (next w e) r end.
 
 Definition run_hist (h : list ev) : jv := JL [ jbool (wfp_from world0 h); JL (run_steps world0 h) ].
+
+
+(* ---------------------------------------------------------------- setters through the real C extension *)
+Definition jv_lstate (st : lstate) : jv :=
+  JL [ JL (map JZ (l_mask st)); JZ (l_nice st); JL [JZ (fst (l_io st)); JZ (snd (l_io st))];
+       JL [JZ (fst (l_rl st)); JZ (snd (l_rl st))] ].
+Fixpoint run_lsteps (elig : list Z) (st : lstate) (ops : list lop) : list jv :=
+  match ops with
+  | [] => []
+  | op :: r =>
+    let '(o, st1) := lstep elig st op in
+    JL [ jv_outcome jv_res o; jv_lstate st1;
+         match lspec elig st op with
+         | Some (o', s') => JL [jv_outcome jv_res o'; jv_lstate s']
+         | None => jnone
+         end ] :: run_lsteps elig st1 r
+  end.
+(* elig: the CPUs the live process may use; then its initial mask, nice, ioprio and limits *)
+Definition run_live (elig mask0 : list Z) (nice0 ioc iod rls rlh : Z) (ops : list lop) : jv :=
+  JL (run_lsteps elig {| l_mask := mask0; l_nice := nice0; l_io := (ioc, iod); l_rl := (rls, rlh) |} ops).
